@@ -284,6 +284,57 @@ func checkC16(c *Ctx) {
 		r.Check(missing == nil, "C16.removal-recorded", "command:"+cmd, p.Pos(f.Pos()), "every removing path writes", "a path removes text (`"+instrString(missing)+"`) without writing it to the kill buffers")
 	}
 
+	// ---- a selected register applies to exactly one command (K1)
+	r.Rule("C16.register-reset", "K1", "Buffers.Write and Buffers.Active defer Reset() before any return: a selected register is consumed by one command, also when nothing is written", 2)
+	for _, n := range []string{fnBufWrite, "(*editor.Buffers).Active"} {
+		f := p.Func(n)
+		if f == nil {
+			r.Unk("C16.register-reset", n, "-", "anchor not found")
+			continue
+		}
+		r.Fn(n)
+		ok, _ := mustPassBefore(f, nil, func(in ssa.Instruction) bool { return isReturn(in) && in.Block() != f.Recover }, func(in ssa.Instruction) bool {
+			d, isD := in.(*ssa.Defer)
+			return isD && calleeName(d) == "(*editor.Buffers).Reset"
+		})
+		r.Check(ok, "C16.register-reset", n+":defer-Reset", p.Pos(f.Pos()), "Reset deferred on every path", n+" can return without having deferred Reset(): after an empty kill the selected register stays armed and the next kill goes to it instead of the kill ring")
+	}
+
+	// ---- after a range kill the cursor is at the start of the removed range (K1+K3)
+	r.Rule("C16.cursor-at-start", "K1", "a kill that marks its range with MarkRange(a, b) leaves the cursor at a: either a is the cursor position with no later cursor move, or Cursor.Set(a) follows the cut on every path", 3)
+	cursorMoves := []string{"(*core.Cursor).Set", "(*core.Cursor).Move", "(*core.Cursor).Inc", "(*core.Cursor).Dec", "(*core.Cursor).EndOfLine", "(*core.Cursor).EndOfLineAppend", "(*core.Cursor).BeginningOfLine", "(*core.Cursor).ToFirstNonSpace", "(*core.Cursor).InsertAt"}
+	seenF := map[*ssa.Function]bool{}
+	for _, cmd := range killCommands {
+		f := reg.Cmds[cmd]
+		if f == nil || seenF[f] {
+			continue
+		}
+		seenF[f] = true
+		for i, mr := range callsTo(f, false, "(*core.Selection).MarkRange") {
+			a := mr.Common().Args[1]
+			key := fmt.Sprintf("%s:MarkRange#%d", fnName(f), i)
+			// only ranges that start at a cursor position are covered (vi-kill-line starts at the insert mark)
+			if !isCallNamed(a, "(*core.Cursor).Pos") {
+				continue
+			}
+			var set ssa.Instruction
+			for _, s := range callsTo(f, false, "(*core.Cursor).Set") {
+				if s.Common().Args[1] == a && reachesBefore(f, mr, s) {
+					set = s
+				}
+			}
+			if set == nil {
+				// the range starts at the cursor: fine if the cursor does not move after that position was taken
+				later := pathAvoiding(f, a.(ssa.Instruction), func(in ssa.Instruction) bool { return isCallTo(in, cursorMoves...) }, nil)
+				r.Check(later == nil, "C16.cursor-at-start", key, p.IPos(mr), "range starts at the cursor, which does not move afterwards", "the cursor moves after the range start was taken from it and is never set back to it: in a multi-line buffer it stays where the range ended, and an immediate yank inserts the text at the wrong place")
+				continue
+			}
+			ok1, _ := mustPassBefore(f, mr, isReturn, func(in ssa.Instruction) bool { return in == set })
+			later := pathAvoiding(f, set, func(in ssa.Instruction) bool { return isCallTo(in, cursorMoves...) }, nil)
+			r.Check(ok1 && later == nil, "C16.cursor-at-start", key, p.IPos(mr), "Cursor.Set(start) is the last cursor move on every path", "Cursor.Set(start of range) is not the last cursor move on every path after the cut")
+		}
+	}
+
 	// ---- Selection.Cut consistency
 	r.Rule("C16.cut-consistent", "K3", "Selection.Cut returns Text() read before the mutation and removes exactly the Pos() range", 2)
 	if SC := p.Func(fnSelCut); SC != nil {
